@@ -541,6 +541,13 @@ def warm_clients(ctx, workdir):
                     ctx.fail("a warm client built with prefixes=False does not build the request a cache-less client "
                              "with that option builds", meta, got_np.decode()[:300], env_np.decode()[:300])
                 usable = (cls is suds.cache.ObjectCache) or policy == 0 or cls is MemCache
+                # what the policy says is cached IS cached by the cold load - with plugins registered or not
+                if cls is not MemCache and (policy == 0 or cls is suds.cache.ObjectCache):
+                    kinds = sorted(set(f_.rsplit("-", 1)[-1] for f_ in files_after_cold if f_.startswith("suds-")))
+                    want_kinds = ["wsdl.px"] if policy == 1 else (["document.px"] if cls is suds.cache.ObjectCache else ["document.xml"])
+                    if kinds != want_kinds:
+                        ctx.fail("the cold load did not store what the caching policy says is cached", meta, files_after_cold,
+                                 want_kinds)
                 if usable and (len(files_after_cold) > 1 or cls is MemCache) and s2.opened:
                     ctx.fail("warm client fetched documents", meta, s2.opened, [])
                 # call-time options of the warm client are honoured (not the cached object's)
@@ -977,6 +984,44 @@ def durations_locations_and_names(ctx, workdir):
                 shutil.rmtree(d, ignore_errors=True)
 
 
+def warm_clients_own_xstq(ctx, workdir):
+    """The xstq option (qualified xsi:type values) is a call-time option of the client that was given it: a warm client
+    built with another setting than the cold one writes xsi:type its own way."""
+    import suds.cache
+    import suds.client
+    schema = ('<xsd:complexType name="Base"><xsd:sequence><xsd:element name="a" type="xsd:string"/></xsd:sequence>'
+              '</xsd:complexType><xsd:complexType name="Derived"><xsd:complexContent><xsd:extension base="x:Base">'
+              '<xsd:sequence><xsd:element name="b" type="xsd:string"/></xsd:sequence></xsd:extension></xsd:complexContent>'
+              '</xsd:complexType><xsd:element name="f"><xsd:complexType><xsd:sequence><xsd:element name="o" type="x:Base"/>'
+              '</xsd:sequence></xsd:complexType></xsd:element>')
+    docs = {"main.wsdl": wsdlkit.wsdl_doc(schema, "f", None)}
+
+    def type_value(client):
+        o = client.factory.create("{%s}Derived" % wsdlkit.TNS)
+        o.a, o.b = "1", "2"
+        root = xmlread.parse(wsdlkit.envelope_bytes(client.service.f(o)))
+        on = xmlread.find1(xmlread.find1(xmlread.find1(root, "Body"), "f"), "o")
+        return ":" in (on["attrs"].get((xmlread.XSI, "type")) or "")
+    for cls, policy in ((suds.cache.ObjectCache, 1), (suds.cache.ObjectCache, 0), (suds.cache.DocumentCache, 0)):
+        for cold_xstq in (True, False):
+            d = tempfile.mkdtemp(dir=workdir)
+            meta = {"stream": "warm-clients-own-xstq", "cache": cls.__name__, "cachingpolicy": policy, "cold_xstq": cold_xstq}
+            ctx.case(common.canon(meta), True)
+            try:
+                got = []
+                for xstq in (cold_xstq, not cold_xstq, cold_xstq):
+                    c = suds.client.Client("suds://main.wsdl", documentStore=CountingStore(docs), cache=cls(location=d),
+                                           cachingpolicy=policy, nosend=True, xstq=xstq)
+                    got.append(type_value(c))
+                want = [cold_xstq, not cold_xstq, cold_xstq]
+            except Exception as e:
+                got, want = "%s: %s" % (type(e).__name__, e), "three clients"
+            if got != want:
+                ctx.fail("a warm client does not honour the options it was given (xstq of the client the cached object was "
+                         "built for shows through)", meta, got, want)
+            shutil.rmtree(d, ignore_errors=True)
+
+
 def family_warm_clients(ctx, workdir):
     """Interfaces of the generated family (several documents, derived types, attributes, arrays), loaded cold and warm
     under both caching policies: the warm client has the operations and types of the cache-less one, builds the same
@@ -1031,6 +1076,7 @@ def run(ctx):
         overwrites_stamps_and_shared_instances(ctx, workdir)
         durations_locations_and_names(ctx, workdir)
         family_warm_clients(ctx, workdir)
+        warm_clients_own_xstq(ctx, workdir)
         shared_dir(ctx, workdir)
         url_case(ctx, workdir)
         warm_clients(ctx, workdir)
